@@ -161,6 +161,11 @@ func (ssc *defaultStatefulSetControl) ListRevisions(set *apps.StatefulSet) ([]*k
 			continue
 		}
 		seen[local.Name] = struct{}{}
+		// Revisions controlled by another owner are not part of this set's
+		// history, even if their labels happen to match.
+		if ref := metav1.GetControllerOfNoCopy(&local); ref != nil && ref.UID != set.UID {
+			continue
+		}
 		res = append(res, &local)
 	}
 	return res, nil
